@@ -45,17 +45,15 @@ fn exec(t: &mut Tape, st: &mut Stats) -> Result<(), String> {
     let status = 300 + t.below(100) as u16;
     let policy = if t.below(2) == 0 { RedirectAuthHeaders::Never } else { RedirectAuthHeaders::SameHost };
     let with_body = t.below(2) == 1;
+    let with_location = t.below(2) == 0;
     let method = METHODS[m].clone();
     st.describe(|| json!({"method": method.as_str(), "status": status, "policy": format!("{:?}", policy), "with_body": with_body}));
     st.evals(1);
-    let head = if with_body {
-        format!("HTTP/1.1 {} R\r\nLocation: /next?x=1\r\nContent-Length: 3\r\n\r\n", status)
-    } else {
-        format!("HTTP/1.1 {} R\r\nLocation: /next?x=1\r\nContent-Length: 0\r\n\r\n", status)
-    };
+    let loc = if with_location { "Location: /next?x=1\r\n" } else { "" };
+    let head = format!("HTTP/1.1 {} R\r\n{}Content-Length: {}\r\n\r\n", status, loc, if with_body { 3 } else { 0 });
     // HEAD responses and 304 carry no body bytes whatever the header says
     let body: &[u8] = if with_body && method != Method::HEAD && status != 304 { b"abc" } else { b"" };
-    let what = format!("{} {} {:?} body={}", method, status, policy, with_body);
+    let what = format!("{} {} {:?} body={} location={}", method, status, policy, with_body, with_location);
     let landed = land(&method, head.as_bytes(), body).map_err(|e| format!("{}: {}", what, e))?;
     let mut red = match landed {
         Landed::Cleanup => {
@@ -74,6 +72,15 @@ fn exec(t: &mut Tape, st: &mut Stats) -> Result<(), String> {
     };
     if red.status().as_u16() != status {
         return Err(format!("{}: redirect state reports status {}", what, red.status()));
+    }
+    if !with_location {
+        // entering the redirect state does not depend on a Location; following it is an error (C14)
+        if red.as_new_flow(policy).is_ok() {
+            return Err(format!("{}: as_new_flow succeeded without a Location header", what));
+        }
+        st.class("no_location");
+        st.count_nontrivial(1);
+        return Ok(());
     }
     let retaining = status == 307 || status == 308;
     let expected: Option<Method> = if retaining {
@@ -118,11 +125,11 @@ fn exec(t: &mut Tape, st: &mut Stats) -> Result<(), String> {
     Ok(())
 }
 
-const BASES: [u64; 4] = [9, 100, 2, 2];
+const BASES: [u64; 5] = [9, 100, 2, 2, 2];
 
 pub static DEF: PropDef = PropDef {
     id: "C15",
-    rule: "exhaustive enumeration: 9 standard methods x every status 300..399 x {Never, SameHost} x response {with, without} body = 3600 \
+    rule: "exhaustive enumeration: 9 standard methods x every status 300..399 x {Never, SameHost} x response {with, without} body x {with, without} Location = 7200 \
 cells; each drives a Flow through the response (and its body) and checks: Redirect entered <=> status != 304, status() equals the \
 code, as_new_flow: 307/308 => None for POST/PUT/PATCH/DELETE else same method; other 3xx => HEAD stays HEAD, GET stays GET, others \
 become GET; the new flow writes a head carrying that method. non-trivial = status outside {301,302,307,308} or method outside {GET, \
